@@ -22,16 +22,24 @@ func VC10_DescriptorDecodeExact() {
 	vsym.Assume(len(in) >= 40)
 	dw := vU32(in, 16)
 	vsym.Assume(vsym.And(dw >= 24, uint64(dw) <= uint64(len(in)-16)))
-	vsym.Assume(vsym.And(vU16(in, 20) == 0x0200, vU16(in, 22) == 0x0EF1))
+	// revision and certificate type are arbitrary: whenever decoding reports success, everything
+	// below must hold (a descriptor of another revision or type is either refused or decoded exactly)
+	wf := vsym.And(vU16(in, 20) == 0x0200, vU16(in, 22) == 0x0EF1)
 	r := bytes.NewReader(in)
 	d, err := ReadEFIVariableAuthencation2(r)
-	vsym.Assert(err == nil, "well-formed descriptor is accepted")
+	if err != nil {
+		vsym.Assert(!wf, "well-formed descriptor is accepted")
+		var d3 EFIVariableAuthentication2
+		vsym.Assert(d3.Unmarshal(bytes.NewBuffer(append([]byte{}, in...))) != nil, "Unmarshal refuses what the reader refuses")
+		vsym.Reach("refused")
+		return
+	}
 	n := vsym.Concrete(int(dw), 1<<17)
 	vsym.Assert(r.Len() == len(in)-16-n, "decoding consumes exactly 16 + dwLength bytes")
 	vsym.Assert(d.Time == vTimeAt(in, 0), "timestamp recovered")
 	vsym.Assert(d.AuthInfo.Header.Length == dw, "dwLength recovered")
-	vsym.Assert(d.AuthInfo.Header.Revision == 0x0200, "revision recovered")
-	vsym.Assert(d.AuthInfo.Header.CertType == WIN_CERT_TYPE_EFI_GUID, "certificate type recovered")
+	vsym.Assert(d.AuthInfo.Header.Revision == vU16(in, 20), "revision recovered")
+	vsym.Assert(uint16(d.AuthInfo.Header.CertType) == vU16(in, 22), "certificate type recovered")
 	// the type GUID is stored in the EFI in-structure layout
 	vsym.Assert(d.AuthInfo.CertType == vGUIDAt(in, 24), "type GUID recovered")
 	vsym.AssertBytesEq(d.AuthInfo.CertData, in[40:16+n], "certificate data recovered")
@@ -58,14 +66,17 @@ func VC10_WinCertDecodeExact() {
 	vsym.Assume(len(in) >= 8)
 	dw := vU32(in, 0)
 	vsym.Assume(vsym.And(dw >= 8, uint64(dw) <= uint64(len(in))))
-	vsym.Assume(vU16(in, 4) == 0x0200)
 	r := bytes.NewReader(in)
 	c, err := ReadWinCertificate(r)
-	vsym.Assert(err == nil, "well-formed WIN_CERTIFICATE is accepted")
+	if err != nil {
+		vsym.Assert(vU16(in, 4) != 0x0200, "well-formed WIN_CERTIFICATE is accepted")
+		vsym.Reach("refused")
+		return
+	}
 	n := vsym.Concrete(int(dw), 1<<17)
 	vsym.Assert(r.Len() == len(in)-n, "decoding consumes exactly dwLength bytes")
 	vsym.Assert(c.Length == dw, "dwLength recovered")
-	vsym.Assert(c.Revision == 0x0200, "revision recovered")
+	vsym.Assert(c.Revision == vU16(in, 4), "revision recovered")
 	vsym.Assert(uint16(c.CertType) == vU16(in, 6), "certificate type recovered")
 	vsym.AssertBytesEq(c.Certificate, in[8:n], "certificate bytes recovered")
 	var b bytes.Buffer
